@@ -286,6 +286,7 @@ func (r *Router) deployTargetsIntoService(service *Service, targetSlot TargetSlo
 	verifPoint("deploy.installed", service.name, int(targetSlot))
 
 	if replaced != nil {
+		replaced.SupersededBy(lb)
 		replaced.DrainAll(drainTimeout)
 		replaced.Dispose()
 	}
